@@ -176,6 +176,16 @@ def _batches(chk, exe, model, state, samples, quick):
     chk.coverage["distribution"] = dist
 
 
+def _proofs(chk):
+    """coq/C09 (make builds the files of coq/C08 and coq/lib it imports); the C08 sources it relies on are
+    scanned for escape hatches as well."""
+    chk.proof_side()
+    bad = vlib.grep_forbidden(["C08"])
+    if bad:
+        chk.coverage["forbidden_constructs"] = chk.coverage.get("forbidden_constructs", []) + bad
+        chk.add_violation("proof:C08-imports", "escape hatch in an imported C08 file: " + "; ".join(bad[:5]), found_input=False)
+
+
 def run(chk):
     quick = chk.tier == "quick"
     chk.coverage["rule"] = RULE
@@ -199,7 +209,7 @@ def run(chk):
         "opaque outcome; subgraph requests as the SET of (subgraph, re-printed operation, variables) -- the loader's single flight "
         "(property C11) makes the number of identical concurrent requests timing dependent",
     ]
-    chk.proof_side(extra_dirs=("C08",))
+    _proofs(chk)
     ok, log = vlib.build_model("C09")
     if not ok:
         chk.add_violation("tie:C09/model-build", log[-2000:], found_input=False)
@@ -246,7 +256,7 @@ def replay(chk, path):
     elif isinstance(case, dict):
         lines = [e.get("case") for e in case.get("examples", []) if isinstance(e, dict) and e.get("case")]
     chk.coverage["rule"] = RULE
-    chk.proof_side(extra_dirs=("C08",))
+    _proofs(chk)
     ok, log = vlib.build_model("C09")
     ok2, log2, exe = vlib.build_harness("c09")
     if not (ok and ok2):
